@@ -449,7 +449,17 @@ pub const SPECIAL_GARBAGE: &[&[u8]] = &[
     b"//", b"/*", b"/*x*/", b"#", b"//x",
     // what other producers write for values JSON does not have
     b"NaN", b"Infinity", b"undefined", b"None", b"True", b"False", b"NULL",
+    // containers and words that go wrong before they are complete
+    b"[}", b"{]", b"[x]", b"[1,]", b"{\"a\"}", b"[[}",
 ];
+
+/// Garbage that opens a container and then goes wrong (for long histories).
+pub const BROKEN_STARTS: &[&[u8]] = &[b"[}", b"{]", b"[x]", b"[1,]", b"{\"a\"}", b"[[}"];
+
+/// Words and numbers that stop before they are complete. The pinned tree's diagnostic for
+/// them quotes the byte that follows - a line feed, say - verbatim, so they are used only
+/// where no diagnostic is printed (the panic policy).
+pub const BROKEN_WORDS: &[&[u8]] = &[b"tru", b"nul", b"fals", b"-", b"t", b"2e"];
 
 pub fn gen_garbage_region(rng: &mut Rng) -> Vec<u8> {
     let mut g = Vec::new();
